@@ -223,3 +223,5 @@ func guard(f func()) (panicked bool, msg string) {
 	f()
 	return
 }
+
+func bytesReader(b []byte) *strings.Reader { return strings.NewReader(string(b)) }
